@@ -159,7 +159,7 @@ def run(tier, replay_file):
     if len(vias) < 4 or not crafted or len(alg_cases) < 50 or not any(c["kind"] == "cb" for c in b_cases):
         raise ToolError("case emission too thin: vias=%s crafted=%d alg=%d" % (dict(vias), len(crafted), len(alg_cases)))
     ac = r_b.action_counts()
-    if not ac.get("ChooseShape", (0, 0))[0]:
+    if not ac.get("ShapeAny", (0, 0))[0]:
         raise ToolError("builder action never taken")
 
     # (A) replay
